@@ -8,6 +8,8 @@ package main
 import (
 	"fmt"
 	"regexp"
+
+	"verif/harness/common"
 	"sort"
 	"strconv"
 	"strings"
@@ -956,6 +958,15 @@ func (ev *evaluator) helper(a []string, bg bool) (code int, out, errS string, sl
 			return usage()
 		}
 		return 0, "", r[0], false, true
+	case "unhex", "unhexerr":
+		if len(r) != 1 || len(r[0])%2 != 0 || strings.Trim(r[0], "0123456789abcdef") != "" {
+			return usage()
+		}
+		raw := string(common.UnHex(r[0]))
+		if a[0] == "unhex" {
+			return 0, raw, "", false, true
+		}
+		return 0, "", raw, false, true
 	case "cat":
 		if len(r) != 0 {
 			return usage()
